@@ -15,7 +15,7 @@ from engine.symutil import Verdict, untraced, decide
 
 META = {
     "bounds": {"quick": "histories of <= 5 operations (first one sharded) over the 10 edit/emit operations, gc/sink-destroy histories of <= 7; J in {zip, combine_latest, combine_latest(emit_on=s0), union, map}",
-               "thorough": "histories of <= 7 operations (gc: 9)"},
+               "thorough": "histories of <= 6 operations (gc: 7)"},
     "outside": ["parallel edges (excluded by the statement)", "edits from inside a running emit"],
     "stubs": [],
     "assumptions": ["CPython reference counting + an explicit gc.collect() decide when an unreferenced branch dies"],
@@ -226,7 +226,7 @@ def _body(shard, *choices):
 
 def obligations(tier):
     q = tier == "quick"
-    steps = 4 if q else 6          # plus the sharded first operation
+    steps = 4 if q else 5          # plus the sharded first operation
     obls = []
     for kind in ("zip", "combine_latest", "combine_latest_on0", "union", "map"):
         for first in J_OPS:
